@@ -115,6 +115,7 @@ func (a *adapter) FileGet(fid string) (_ *t.FileDef, err error) {
 // only those updated before olderThan, at most limit (if positive) records.
 // Returns the non-empty locations of the removed records.
 func (a *adapter) FileDeleteUnused(olderThan time.Time, limit int) (_ []string, err error) {
+	noteGcC16f(olderThan, limit) // zz_gc_c16f.go: records the arguments when a driver asked for it
 	if err = a.begin("FileDeleteUnused"); err != nil {
 		return nil, err
 	}
